@@ -193,6 +193,28 @@ def build_app(track=None):
         rq.cart = [rq.who]
         return 'set %s %r' % (rq.who, rq.cart)
 
+    COMMON = {'X-Frame-Options': 'DENY', 'Cache-Control': 'no-store'}       # one dict of headers every answer of this kind is built with
+
+    @app.route('/common')
+    def common():
+        m = app.request.query.get('m')
+        if app.request.query.get('deny'):
+            raise HTTPError(403, 'denied', headers=COMMON, X_Deny_Reason='not for ' + m)
+        r = HTTPResponse('hello', 200, headers=COMMON, **({'X_Greeted': m} if m else {}))
+        if m:
+            r.headers['X-For'] = m
+            r.content_type = 'text/plain; for=' + m
+        return r
+
+    KEPT_ERR = {}
+
+    @app.route('/kepterr')
+    def kepterr():
+        # an error object made once and raised again and again; its text holds what HTML has to escape
+        if 'e' not in KEPT_ERR:
+            KEPT_ERR['e'] = HTTPError(403, 'Uploads > 16 bytes are refused & dropped <always> "quoted"')
+        raise KEPT_ERR['e']
+
     @app.route('/prepared')
     def prepared():
         # one answer prepared at start-up (with an anonymous session cookie); every request sends a copy of it, personalised or not
@@ -330,6 +352,11 @@ def kinds():
         'whoami_known': lambda m: dict(method='GET', path='/whoami', headers={'X-Forwarded-For': 'client-%s, proxy-%s' % (m, m),
                                                                               'Authorization': 'Basic ' + __import__('base64').b64encode(('user-%s:pw-%s' % (m, m)).encode()).decode()}),
         'whoami_anon': lambda m: dict(method='GET', path='/whoami'),
+        'common_headers_personal': lambda m: dict(method='GET', path='/common', qs='m=' + m),
+        'common_headers_denied': lambda m: dict(method='GET', path='/common', qs='deny=1&m=' + m),
+        'common_headers_plain': lambda m: dict(method='GET', path='/common'),
+        'kept_error': lambda m: dict(method='GET', path='/kepterr', qs='m=' + m),
+        'kept_error_json': lambda m: dict(method='GET', path='/kepterr', headers={'Accept': 'application/json'}),
         'prepared_copy_personal': lambda m: dict(method='GET', path='/prepared', qs='m=' + m),
         'prepared_copy_plain': lambda m: dict(method='GET', path='/prepared'),
         # a body announced as empty: closed by one request's handler, looked at by the next
@@ -370,7 +397,7 @@ def kinds():
 
 VARIANTS = ['A1', 'B22xx']      # different lengths: pages that embed the URL differ in size
 SUCCESS = {'ok', 'plain', 'raise', 'head', 'gen', 'form', 'urlform', 'signed', 'goodjson', 'gen_cookie', 'file', 'file_wrapped', 'file_wrapped_head', 'session', 'ok_http10',
-           'chunked_urlform', 'peek', 'spilled_echo', 'cookies_bad', 'cookies_ok', 'form_repeated', 'greet_known', 'greet_stranger', 'anon_wildcard_path', 'prepared_bye', 'logout', 'relogin', 'urlform_long', 'urlform_cut', 'ext_set', 'ext_get', 'whoami_known', 'whoami_anon', 'prepared_copy_personal', 'prepared_copy_plain', 'empty_body_closed', 'empty_body_read',
+           'chunked_urlform', 'peek', 'spilled_echo', 'cookies_bad', 'cookies_ok', 'form_repeated', 'greet_known', 'greet_stranger', 'anon_wildcard_path', 'prepared_bye', 'logout', 'relogin', 'urlform_long', 'urlform_cut', 'ext_set', 'ext_get', 'whoami_known', 'whoami_anon', 'prepared_copy_personal', 'prepared_copy_plain', 'common_headers_personal', 'common_headers_plain', 'empty_body_closed', 'empty_body_read',
            'hdr_false', 'hdr_zero', 'hdr_fzero', 'hdr_true', 'hdr_one', 'hdr_fone'}
 SHARED_ERR = {'badchunk', 'badmultipart', 'oversized', 'noname_part', 'badjson_json', 'badchunk_json', 'oversized_json', 'cutmp_in_closing_delimiter', 'cutmp_in_first_delimiter'}
 
